@@ -103,7 +103,11 @@ def merged_defs(case):
 def known36(case):
     """D36: a #REQUIRED definition (after merging, first wins) whose attribute is not written"""
     written = {a for a, _ in case['attrs']}
-    return any(k == 'R' and a not in written for a, ty, k, ps in merged_defs(case))
+    return any(k == 'R' and a not in written and not is_nsdecl(a) for a, ty, k, ps in merged_defs(case))
+
+def is_nsdecl(a):
+    """xmlns or xmlns:p -- never a member of [attributes], written or defaulted (D67: a #REQUIRED one is not materialised either)"""
+    return a == 'xmlns' or a.startswith('xmlns:')
 
 def known_esc(case):
     """D56: an entity literal contains a character reference to '&'"""
@@ -122,21 +126,40 @@ def nontrivial(case):
 # ------------------------------------------------------------------ generators
 OTHER = [('t', ' d  d ')]      # the default literal when the literal under test is written
 
-def mk_case(lit, ty, kind, written, layout, table=ENTS):
-    """the attribute under test is `a` on element `e`.
+def mk_case(lit, ty, kind, written, layout, table=ENTS, a='a'):
+    """the attribute under test is `a` on element `e` (or a namespace declaration `xmlns` / `xmlns:p`: it must never
+    be listed, written or defaulted -- XML Infoset 2.2, D67).
     layout: 0 no ATTLIST | 1 one ATTLIST | 2 two ATTLISTs, a in the second | 3 two ATTLISTs both declare a
             | 4 one ATTLIST declares a twice | 5 an ATTLIST of another element first"""
     dflt = OTHER if written else lit
     need = reach(lit + (dflt if kind in 'DF' and layout else []), table)
     decls = [('e', n, table[n]) for n in need]
-    d = ('a', ty, kind, dflt if kind in 'DF' else [])
-    shadow = ('a', 'NMTOKENS' if ty == 'CDATA' else 'CDATA', 'D', [('t', ' ZZ ')])
+    d = (a, ty, kind, dflt if kind in 'DF' else [])
+    shadow = (a, 'NMTOKENS' if ty == 'CDATA' else 'CDATA', 'D', [('t', ' ZZ ')])
     if layout == 1: decls.append(('l', 'e', [d]))
     elif layout == 2: decls += [('l', 'e', [('b', 'CDATA', 'D', [('t', '1')])]), ('l', 'e', [d])]
     elif layout == 3: decls += [('l', 'e', [d]), ('l', 'e', [shadow, ('c', 'NMTOKEN', 'F', [('t', ' 2 ')])])]
     elif layout == 4: decls.append(('l', 'e', [d, shadow]))
     elif layout == 5: decls += [('l', 'f', [shadow]), ('l', 'e', [d])]
-    return {'decls': decls, 'el': 'e', 'attrs': [('a', lit)] if written else []}
+    return {'decls': decls, 'el': 'e', 'attrs': [(a, lit)] if written else []}
+
+NS_NAMES = ['xmlns', 'xmlns:p', 'xmlns:q']
+
+def nsdecl_cases(rng):
+    """namespace declarations in attribute-list declarations (D67): every kind x written x layout for xmlns / xmlns:p next to
+    an ordinary default, plus the ordinary look-alikes q:xmlns and xmlnsx"""
+    out = []
+    lits = [[('t', 'u')], [], [('t', ' u  v ')], [('c', 117), ('r', 'e5')]]
+    for a in NS_NAMES[:2] + ['q:xmlns', 'xmlnsx']:
+        for kind in KINDS:
+            for written in (True, False):
+                for layout in (1, 2, 3, 4, 5):
+                    for ty in ('CDATA', 'NMTOKENS'):
+                        c = mk_case(rng.choice(lits), ty, kind, written, layout, a=a)
+                        c['decls'].append(('l', 'e', [('z', 'CDATA', 'D', [('t', '9')]), ('xmlns:q', 'CDATA', rng.choice('DFI'), [('t', 'w')])]))
+                        if rng.random() < 0.5: c['attrs'].append(('xmlns:q', [('t', 'written')]))
+                        out.append(c)
+    return out
 
 def literals(maxlen):
     for n in range(maxlen + 1):
@@ -194,7 +217,7 @@ def random_case(rng):
         k = rng.randrange(len(decls))
         extra = [('r', rng.choice(names))] if bad < 0.10 else [('c', 60)]
         decls[k] = ('e', decls[k][1], decls[k][2] + extra)
-    attrs_all = ['a', 'b', 'p:c', 'c', 'd']
+    attrs_all = ['a', 'b', 'p:c', 'c', 'd'] + (['xmlns', 'xmlns:p', 'q:xmlns'] if rng.random() < 0.35 else [])
     nl = rng.randint(0, 3)
     lists = []
     for _ in range(nl):
@@ -302,7 +325,9 @@ def check(run):
     rnd = [random_case(run.rng) for _ in range(3000 if run.tier == 'quick' else 60000)]
     corpus = corpus_cases()
     run.extra['corpus_cases'] = len(corpus)
-    cases = corpus + ex + rnd + esc_cases()
+    nsd = nsdecl_cases(run.rng)
+    run.extra['namespace_declaration_definitions'] = len(nsd)
+    cases = corpus + nsd + ex + rnd + esc_cases()
     r, m, s = run_three(cases, okr, okm, oks)
     findings = {e['id']: e for e in lib.known_findings('C11')}
     ties, fails = 0, []
@@ -318,6 +343,8 @@ def check(run):
                 if d[0] == 'l':
                     for a, ty, k, ps in d[2]:
                         run.count('type:' + ty); run.count('default:' + k)
+                        if is_nsdecl(a) and d[1] == c['el']:
+                            run.count('nsdecl-definition:' + k + ('/written' if any(x == a for x, _ in c['attrs']) else '/omitted'))
             for k, v in all_pieces(c):
                 run.count('piece:' + ({'t': 'text', 'c': 'charref', 'r': 'entref'}[k]))
             if i % 1499 == 0:
